@@ -53,6 +53,11 @@ CHECKS = {
          "BLS on the 8 supported (suite, signature group) combinations: keys {1,r1,r2} x 3 message lengths; forged variants (sigma+B, -sigma, 2 sigma, identity, other key/message, one bit per byte). Threshold BLS: all (t,n) up to n=3 (4 for two combinations; thorough 4-5): every subset with >= t-1 valid partials, every order (n<=3), one injected item from an 8-element fault menu at every position: Recover == bls.Sign(group secret) iff >= t distinct valid partials, else error. BDN: all non-empty masks over n<=3 (4 on bn256) signers through 6+|mask| construction routes (SetBit, own-key constructor, SetMask, Merge, aggregate-then-Merge, Clone-then-edit): route-independent aggregate key, verifies under it and under no other mask or message. CoSi: all masks over n<=4 x all threshold policies + Complete, every bit of V|r|mask flipped, length variants; all 14^3 mask-edit sequences keep AggregatePublic = sum of enabled keys.",
          "Trusted: seeded keys; chance acceptance ignored. Larger n and t are not covered.",
          "DESIGN.md §4 C09"),
+ "C10": ("model_checking",
+         "explicit-state BFS over event histories on the real Verifier/Dealer/Aggregator objects (successor = replay on a fresh instance), lock-step reference model, state merging on model state + public observables",
+         "Pedersen and Rabin VSS, n=3 (thorough: 3 and 4), every valid t, observers verifier 0 (thorough: also n-1) and the dealer: all histories up to depth n+2 (thorough n+4) over ~30 events: 13 deal variants produced by editing the dealer's plaintext deal and encrypting through the real DH/HKDF/AES-GCM/Schnorr path (share+1, wrong index, replaced commitment, T in {0,1,n+1}, replaced SessionID, absent share value, wrong recipient, forged dealer, flipped signature, replayed session), authentic approvals/complaints of real verifiers, bad-signature / other-session / out-of-range / forged-own responses, correct and incorrect justifications (also for the observer's own complaint), timeout. Oracle after every transition: S2 (approval only of consistent deals, honest deal approved), S3 (certified => >= t distinct approved-or-justified, no processed invalid justification, valid threshold), liveness (all approved/justified => certified), Deal()!=nil => certified. S1 on honest runs n=3..5, all t: everyone approves, certified everywhere, every t-subset of Deal()s reconstructs the dealer's secret; published commitment = secret*G.",
+         "Trusted: the reference model (written from the statement), seeded message generation through the real code. Merged states may hide implementation state not exposed by the API.",
+         "DESIGN.md §4 C10"),
 }
 
 NOT_YET = "check not built yet in this round (planned: see DESIGN.md §4)"
